@@ -1,7 +1,7 @@
 (* FastPacketProofs.v — specifications and proofs for FastPacket.v (C03, C04).
    Built on the checked spike of DESIGN Appendix C (the frame store is `sel seen (all frames of the message)`). *)
 From NV Require Import Base Bits FastPacket.
-From Coq Require Import Sorted Arith.
+From Coq Require Import Sorted Arith DecimalZ.
 
 (* ================================================================================================ *)
 (** * Part 1 — specification vocabulary *)
@@ -1293,3 +1293,68 @@ Proof.
       (solve [split; [vm_compute; auto 10 | discriminate]] || solve [split; vm_compute; intro; discriminate]).
   - split; [vm_compute; intuition discriminate|]. split; vm_compute; reflexivity.
 Qed.
+
+(* ================================================================================================ *)
+(** * Part 13 — the dictionary key f"{pgn}_{src}_{dest}" (decoder.py:96) is injective on integers *)
+
+Fixpoint digits (u : Decimal.uint) : list Z :=
+  match u with
+  | Decimal.Nil => []
+  | Decimal.D0 u => 48 :: digits u | Decimal.D1 u => 49 :: digits u | Decimal.D2 u => 50 :: digits u
+  | Decimal.D3 u => 51 :: digits u | Decimal.D4 u => 52 :: digits u | Decimal.D5 u => 53 :: digits u
+  | Decimal.D6 u => 54 :: digits u | Decimal.D7 u => 55 :: digits u | Decimal.D8 u => 56 :: digits u
+  | Decimal.D9 u => 57 :: digits u
+  end.
+(** str(z) of a Python int as ASCII codes: '-' = 45, '0'..'9' = 48..57 *)
+Definition pystr (z : Z) : list Z :=
+  match Z.to_int z with Decimal.Pos u => digits u | Decimal.Neg u => 45 :: digits u end.
+(** '_' = 95 *)
+Definition key_string (k : key) : list Z :=
+  let '(p, s, d) := k in pystr p ++ 95 :: pystr s ++ 95 :: pystr d.
+
+Lemma digits_inj : forall u v, digits u = digits v -> u = v.
+Proof. induction u; destruct v; simpl; intros E; try discriminate; try reflexivity; inversion E; f_equal; auto. Qed.
+
+Lemma digits_range u : Forall (fun c => 48 <= c <= 57) (digits u).
+Proof. induction u; simpl; constructor; try lia; assumption. Qed.
+
+Lemma pystr_inj a b : pystr a = pystr b -> a = b.
+Proof.
+  unfold pystr. intros E. rewrite <- (DecimalZ.of_to a), <- (DecimalZ.of_to b).
+  destruct (Z.to_int a) as [u|u], (Z.to_int b) as [v|v].
+  - apply digits_inj in E. subst. reflexivity.
+  - exfalso. pose proof (digits_range u) as R. rewrite E in R. inversion R; lia.
+  - exfalso. pose proof (digits_range v) as R. rewrite <- E in R. inversion R; lia.
+  - inversion E as [E']. apply digits_inj in E'. subst. reflexivity.
+Qed.
+
+Lemma pystr_no_sep a : ~ In 95 (pystr a).
+Proof.
+  unfold pystr. destruct (Z.to_int a) as [u|u]; intros H.
+  - pose proof (digits_range u) as R. rewrite Forall_forall in R. specialize (R _ H). lia.
+  - destruct H as [H|H]; [discriminate|].
+    pose proof (digits_range u) as R. rewrite Forall_forall in R. specialize (R _ H). lia.
+Qed.
+
+Lemma split_at_sep (c : Z) : forall a a' b b', ~ In c a -> ~ In c a' ->
+  a ++ c :: b = a' ++ c :: b' -> a = a' /\ b = b'.
+Proof.
+  induction a as [|x a IH]; intros [|y a'] b b' Ha Ha' E; simpl in E.
+  - inversion E. auto.
+  - inversion E; subst. exfalso. apply Ha'. left. reflexivity.
+  - inversion E; subst. exfalso. apply Ha. left. reflexivity.
+  - inversion E; subst. destruct (IH a' b b') as [-> ->]; auto.
+    + intros H. apply Ha. right. exact H.
+    + intros H. apply Ha'. right. exact H.
+Qed.
+
+Theorem key_string_inj k k' : key_string k = key_string k' -> k = k'.
+Proof.
+  destruct k as [[p s] d], k' as [[p' s'] d']. unfold key_string. intros E.
+  apply split_at_sep in E; try apply pystr_no_sep. destruct E as [Ep E].
+  apply split_at_sep in E; try apply pystr_no_sep. destruct E as [Es Ed].
+  apply pystr_inj in Ep, Es, Ed. subst. reflexivity.
+Qed.
+
+Example key_string_example : key_string (126720, 5, 255) = [49; 50; 54; 55; 50; 48; 95; 53; 95; 50; 53; 53].
+Proof. vm_compute. reflexivity. Qed.
